@@ -630,7 +630,15 @@ var scenCount int
 // runStress: a real-scheduler stress line (oracle-only, not monitored): `pools` fresh pools of size n; on each, k
 // goroutines are released from a spin barrier and Send one task each; the handlers keep a running counter. Runs with 4 Ps
 // (the rest of the harness uses one) and with the GC off, which under faketime can livelock with several Ps.
+// NOTE: the stress lines are not generated by gen(); checklib/c08.py runs them in a SEPARATE harness process with a 60 s
+// real-time limit (a watchdog inside this process is impossible: a goroutine blocked in a real syscall or in signal
+// delivery keeps an M busy, and the faketime clock advances only when every M is idle).
 func runStress(n, k, pools int) string {
+	var progress int32
+	return runStressBody(n, k, pools, &progress)
+}
+
+func runStressBody(n, k, pools int, progress *int32) string {
 	oldP := runtime.GOMAXPROCS(4)
 	defer runtime.GOMAXPROCS(oldP)
 	oldGC := debug.SetGCPercent(-1)
@@ -679,6 +687,7 @@ func runStress(n, k, pools int) string {
 			maxAll = m
 		}
 		stopPool(pool)
+		atomic.StoreInt32(progress, int32(p+1))
 	}
 	return fmt.Sprintf("stress n=%d k=%d pools=%d over=%d bad=%d max=%d", n, k, pools, over, bad, maxAll)
 }
